@@ -650,7 +650,16 @@ def run_c17(case):
     return {"a1": a1, "a2": a2, "b": b, "kept": a1.count("save"), "n": len(a1)}
 
 
+def run_c04(case):     # (C04 and C05: recorder histories and racing-threads cases)
+    if case.get("kind") == "race":
+        import race_driver
+        return race_driver.run_race(case)
+    return run_history(case)
+
+
 if __name__ == '__main__':
-    hs = {p: run_history for p in ("C01", "C02", "C03", "C04", "C05", "C09", "C18", "REC")}
+    hs = {p: run_history for p in ("C01", "C02", "C03", "C05", "C09", "C18", "REC")}
+    hs["C04"] = run_c04
+    hs["C05"] = run_c04
     hs["C17"] = run_c17
     main(hs)
